@@ -23,7 +23,8 @@ discrepancy ("cells of any type never make the function fail").
 import json
 import os
 import random
-from concurrent.futures import ProcessPoolExecutor
+import time
+from concurrent.futures import ProcessPoolExecutor, ThreadPoolExecutor
 from fractions import Fraction
 
 from harness import tlc, xl
@@ -146,7 +147,7 @@ def check_vector(vec, seed, full):
     data = [num(c[1])[0] for c in vec['data']]
     weights = [1 << i for i in range(n)]
     ctexts = [crit_text(c) for c in crits]
-    case = dict(range=vals, cells=rng, criteria=ctexts)
+    case = dict(range=vals, cells=rng, criteria=ctexts, crits=crits)
     viol, keys = [], []
     ncase = 0
 
@@ -406,10 +407,24 @@ def run(tier, seed):
     v = Verdict(PID, tier, seed)
     rnd = random.Random(seed)
     jobs = min(16, os.cpu_count() or 4)
+    # fork the workers now, while this process is still small
+    pool = ProcessPoolExecutor(max_workers=jobs)
+    pool.submit(int, 0).result()
 
-    # ---- TLC, exhaustive ----------------------------------------------------
+    # ---- TLC: the exhaustive run and the simulation run side by side ---------
+    # exhaustive: one cell x 1..2 criteria (thorough: also two cells x one
+    # criterion); -simulate: ranges up to 15 cells, up to three criteria
     cfg = 'Criteria_mc.cfg' if tier == 'quick' else 'Criteria_mc2.cfg'
-    res = tlc.run('MC_Criteria', cfg, workers=4, coverage=True, timeout=800)
+    quick = tier == 'quick'
+    simw, simn = (1, 4) if quick else (4, 25)       # -simulate num is per worker
+    ntraces = simw * simn
+    tlc.scratch_dir()          # create the shared scratch before the threads start
+    with ThreadPoolExecutor(max_workers=2) as tp:
+        f_mc = tp.submit(tlc.run, 'MC_Criteria', cfg, workers=4 if quick else 8,
+                         coverage=True, timeout=840)
+        f_sim = tp.submit(tlc.run, 'MC_Criteria', 'Criteria_big.cfg', workers=simw,
+                          simulate=dict(num=simn), depth=19, seed=seed + 1, timeout=840)
+        res, sim = f_mc.result(), f_sim.result()
     if not res.ok:
         raise tlc.MachineryFailure(
             f'Criteria model violates {res.violated}:\n' + res.stdout[-2500:])
@@ -425,11 +440,6 @@ def run(tier, seed):
         raise tlc.MachineryFailure(
             f'export incomplete: {len(vectors)} vectors for {res.distinct} states')
     exhaustive_n = len(vectors)
-
-    # ---- TLC -simulate: ranges up to 15 cells, up to three criteria ---------
-    ntraces = 4 if tier == 'quick' else 300
-    sim = tlc.run('MC_Criteria', 'Criteria_big.cfg', workers=1,
-                  simulate=dict(num=ntraces), depth=19, seed=seed + 1, timeout=600)
     if not sim.ok:
         raise tlc.MachineryFailure(
             f'Criteria model (simulation) violates {sim.violated}:\n' + sim.stdout[-2500:])
@@ -467,8 +477,9 @@ def run(tier, seed):
     for i in range(0, len(order), chunk):
         idx = order[i:i + chunk]
         tasks.append(([vectors[j] for j in idx], seed, [flags[j] for j in idx]))
+    t_drive = time.time()
     nform = nfull = 0
-    with ProcessPoolExecutor(max_workers=jobs) as ex:
+    with pool as ex:
         for task, results in zip(tasks, ex.map(_work, tasks)):
             for vec, (viol, ncase, keys, nf) in zip(task[0], results):
                 ck = canon(vec)
@@ -483,6 +494,7 @@ def run(tier, seed):
                     v.sample(dict(range=vec['rng'], criteria=[crit_text(c) for c in vec['crits']],
                                   must=vec['must'], may=vec['may']))
     v.traces = nfull
+    v.extra['phase_s'] = dict(tlc=round(t_drive - v.t0, 1), drive=round(time.time() - t_drive, 1))
     v.extra.update(
         exhaustive=True, exhaustive_vectors=exhaustive_n,
         simulated_vectors=len(long_vecs), workbooks_built=nfull,
@@ -511,3 +523,44 @@ def run(tier, seed):
     v.assumptions = ['TLC evaluates Criteria.tla/CellValues.tla correctly',
                      'numbers are multiples of 1/2: float sums exact; tolerance 1e-9']
     return v.finish()
+
+
+def tla(x):
+    """JSON value exported by TLC -> TLA+ literal"""
+    if isinstance(x, list):
+        return '<<' + ', '.join(tla(y) for y in x) + '>>'
+    if isinstance(x, str):
+        return '"' + x + '"'
+    return str(x)
+
+
+def replay(path):
+    """Re-run one recorded discrepancy: TLC re-derives the allowed selections
+    and results for the recorded (range, criteria), then the real code is driven."""
+    with open(path) as f:
+        rec = json.load(f)
+    rng = rec['case']['cells']
+    crits = [[c[0], c[1]] for c in rec['case']['crits']]
+    d = tlc.new_scratch('replay')
+    with open(os.path.join(d, 'ReplayCriteria.tla'), 'w') as f:
+        f.write(f'---- MODULE ReplayCriteria ----\nEXTENDS MC_Criteria\n'
+                f'RRng == {tla(rng)}\nRCrits == {tla(crits)}\n'
+                f'RInit == rng = RRng /\\ crits = RCrits\nRNext == UNCHANGED vars\n====\n')
+    cfg = open(os.path.join(tlc.SPEC, 'Criteria_big.cfg')).read()
+    cfg = cfg.replace('SPECIFICATION Spec', 'INIT RInit\nNEXT RNext')
+    cfg = '\n'.join(line for line in cfg.splitlines()
+                    if not line.startswith(('PROPERTY', 'INVARIANT TypeOK')))
+    with open(os.path.join(d, 'R.cfg'), 'w') as f:
+        f.write(cfg + '\n')
+    res = tlc.run('ReplayCriteria', 'R.cfg', spec_dir=d, workers=1, library=tlc.SPEC)
+    if not res.ok or len(res.json) != 1:
+        raise tlc.MachineryFailure('replay: TLC failed on the recorded input:\n'
+                                   + res.stdout[-1500:])
+    vec = res.json[0]
+    seed = int(os.environ.get('VERIF_SEED', '0') or 0)
+    viol, ncase, keys, nf = check_vector(vec, seed, 2)
+    print(f'replay {PID}: range {rec["case"]["range"]}, criteria {rec["case"]["criteria"]}; '
+          f'{ncase} cases, {nf} formulas')
+    for desc, case in viol:
+        print(f'VIOLATION property={PID} replay={path}\n  {desc}')
+    return 1 if viol else 0
